@@ -48,23 +48,65 @@ def showRaw (x : Coder) : String :=
 /-- what the crate's static assertions say about a coder precision -/
 def precOk (W S q : Nat) : Bool := decide (1 ≤ q ∧ q ≤ W ∧ W + q ≤ S)
 
+/-- The `(Word, State)` combinations and, per probability width `B`, the precisions that are
+    compiled into the Rust harness (`for_each_combo!` in `harness/src/util.rs`); anything else
+    is answered `unsupported` on both sides. -/
+def combos : List (Nat × Nat × List (Nat × List Nat)) :=
+  [(8, 16, [(8, [1, 2, 3, 4, 5, 7, 8])]),
+   (8, 32, [(8, [1, 2, 3, 4, 5, 7, 8])]),
+   (8, 64, [(8, [1, 3, 8])]),
+   (16, 32, [(8, [1, 4, 8]), (16, [1, 2, 7, 8, 12, 15, 16])]),
+   (16, 64, [(8, [8]), (16, [1, 8, 12, 16])]),
+   (32, 64, [(8, [8]), (16, [12, 16]), (32, [1, 8, 16, 24, 31, 32])]),
+   (32, 128, [(16, [16]), (32, [1, 24, 32])]),
+   (64, 128, [(16, [12]), (32, [1, 24, 32])])]
+
+def bpsOf (W S : Nat) : Option (List (Nat × List Nat)) :=
+  (combos.find? (fun e => e.1 == W && e.2.1 == S)).map (·.2.2)
+
+/-- is `ChainCoder<W, S, _, _, p>` compiled in? -/
+def compiledP (W S p : Nat) : Bool :=
+  match bpsOf W S with
+  | some bps => bps.any (fun e => e.2.contains p)
+  | none => false
+
+/-- are the model types with `Probability::BITS = b` compiled in for precision `p`? -/
+def compiledBP (W S b p : Nat) : Bool :=
+  match bpsOf W S with
+  | some bps => bps.any (fun e => e.1 == b && e.2.contains p)
+  | none => false
+
+/-- protocol values must fit the Rust types they are parsed into (`bad-op` otherwise) -/
+def wordsOk (W : Nat) (l : List Nat) : Bool := l.all (fun w => decide (w < 2^W))
+
+/-- a cdf table fits `Probability` with `B` bits: entries `≤ 2^B`, all but the last `< 2^B`,
+    no single probability of `2^B` -/
+def cdfOk (B : Nat) : List Nat → Bool
+  | [] => true
+  | [a] => decide (a ≤ 2^B)
+  | a :: b :: rest => decide (a < 2^B) && decide (b - a < 2^B) && cdfOk B (b :: rest)
+
 def doInit (W S P : Nat) (seg : List String) : Option (Option Coder) :=
   let c := cfgOf W S P P
   match seg with
   | ["binary", ws] => do
       let l ← parseList ws
+      if !wordsOk W l then none else
       some (fromBinary c l.reverse)
   | ["compressed", ws] => do
       let l ← parseList ws
+      if !wordsOk W l then none else
       some (fromCompressed c l.reverse)
   | ["remainders", ws] => do
       let l ← parseList ws
+      if !wordsOk W l then none else
       some (fromRemainders c l.reverse)
   | ["raw", comp, rems, hc, hr] => do
       let comp ← parseList comp
       let rems ← parseList rems
       let hc ← parseHex hc
       let hr ← parseHex hr
+      if !(wordsOk W comp && wordsOk W rems && decide (hc < 2^W) && decide (hr < 2^S)) then none else
       if hc = 0 then some none else
       some (some { compressed := comp.reverse, remainders := rems.reverse,
                    heads := { compressed := hc, remainders := hr } })
@@ -86,121 +128,149 @@ def expOut (r : Except ExpErr (List Nat × List Nat)) : String × Bool :=
   | .error .notWhole => ("notwhole", false)
   | .error (.fault f) => (faultStr f, true)
 
-/-- per-item loop of `encode_symbols` & friends over a table model (`none` = `Err` item of the
-    `try_` forms) -/
-def encLoop (c : Cfg) (t : List Nat) : Coder → List (Option Nat) → (Coder × String × Bool)
-  | x, [] => (x, "ok", false)
-  | x, none :: _ => (x, "modelerr", false)
-  | x, some s :: rest =>
-    match encode c (tableModel t) s x with
-    | .ok y => encLoop c t y rest
-    | .error e => (x, (encErrStr e).1, (encErrStr e).2)
-
-/-- returns the coder, the symbols decoded (newest first), the output and the `dead` flag -/
-def decLoop (c : Cfg) (t : List Nat) : Coder → List Bool → List Nat → (Coder × List Nat × String × Bool)
-  | x, [], acc => (x, acc, showList acc.reverse, false)
-  | x, true :: _, acc => (x, acc, showList acc.reverse ++ " modelerr", false)
-  | x, false :: rest, acc =>
-    match decode c (tableModel t) x with
-    | .ok (s, y) => decLoop c t y rest (s :: acc)
-    | .error .outOfData => (x, acc, showList acc.reverse ++ " out_of_data", false)
-    | .error (.fault f) => (x, acc, faultStr f, true)
-
 def parseOptIdx (s : String) : Option (Option Nat) :=
-  if s == "-" then some none else (parseHex s).map some
+  if s == "-" then some none else
+  match parseHex s with
+  | some v => if v < 2^16 then some (some v) else none
+  | none => none
 
 def listGet? : List α → Nat → Option α
   | [], _ => none
   | a :: _, 0 => some a
   | _ :: l, n + 1 => listGet? l n
 
-/-- `undo`: re-encode the most recently decoded symbol with its model, or revert the most
-    recent precision change (`change_precision` back to the old precision) -/
-def undoOne (W S : Nat) (st : St) : St × String × Bool :=
-  match st.ghost with
-  | [] => (st, "empty", false)
-  | .sym p b t s :: rest =>
-    let st := { st with ghost := rest }
-    if p ≠ st.P then (st, "skip", false) else
-    match encode (cfgOf W S st.P b) (tableModel t) s st.x with
-    | .ok y => ({ st with x := y }, "ok", false)
-    | .error e => (st, (encErrStr e).1, (encErrStr e).2)
-  | .prec q :: rest =>
-    let st := { st with ghost := rest }
-    match changePrecision (cfgOf W S st.P st.P) q st.x with
-    | .ok y => ({ st with x := y, P := q }, "ok", false)
-    | .error e => (st, (encErrStr e).1, (encErrStr e).2)
+/-- the ghost entries that `undo`/`undoall` may process in one go: those whose recorded
+    precision is the precision the coder will have when their turn comes (assuming the
+    entries before them succeed), as log entries of the model -/
+def ghostPrefix : Nat → List Ghost → List (Done Nat)
+  | _, [] => []
+  | P, .sym p b t s :: rest => if p ≠ P then [] else .dec b (tableModel t) s :: ghostPrefix P rest
+  | _, .prec q :: rest => .prec q :: ghostPrefix q rest
 
-def undoAll (W S : Nat) : Nat → St → Nat → St × String × Bool
-  | 0, st, n => (st, toHex n ++ " ok", false)
-  | fuel + 1, st, n =>
-    if st.ghost.isEmpty then (st, toHex n ++ " ok", false) else
-    let (st', out, dead) := undoOne W S st
-    if out == "ok" then undoAll W S fuel st' (n + 1) else (st', toHex n ++ " " ++ out, dead)
+/-- `undo` (`all = false`) / `undoall`: executes the model's `runUndoE` on the log entries -/
+def doUndo (W S : Nat) (st : St) (all : Bool) : St × String × Bool :=
+  match st.ghost with
+  | [] => (st, if all then "0 ok" else "empty", false)
+  | g0 :: _ =>
+    let avail := ghostPrefix st.P st.ghost
+    let todo := if all then avail else avail.take 1
+    let (n, c', y, e) := runUndoE (cfgOf W S st.P st.P) todo st.x
+    let pre (o : String) : String := if all then toHex n ++ " " ++ o else o
+    match e with
+    | some err =>
+      -- the failing entry is consumed as well
+      ({ st with x := y, P := c'.P, ghost := st.ghost.drop (n + 1) }, pre (encErrStr err).1, (encErrStr err).2)
+    | none =>
+      let st' := { st with x := y, P := c'.P, ghost := st.ghost.drop n }
+      if all then
+        match st'.ghost with
+        | [] => (st', pre "ok", false)
+        | _ :: rest => ({ st' with ghost := rest }, pre "skip", false)   -- precision mismatch
+      else
+        match g0, todo with
+        | _, [] => ({ st with ghost := st.ghost.drop 1 }, "skip", false)
+        | _, _ => (st', "ok", false)
 
 /-- one op; returns new state, output, and whether the history died (panic) -/
 def doOp (W S : Nat) (st : St) (seg : List String) : Option (St × String × Bool) :=
   let x := st.x
   let upd (r : Coder × String × Bool) : St × String × Bool := ({ st with x := r.1 }, r.2.1, r.2.2)
-  let skip (p : String) (k : St → Option (St × String × Bool)) : Option (St × String × Bool) :=
-    match parseHex p with
-    | none => none
-    | some p => if p ≠ st.P then some (st, "skip", false) else k st
+  -- ops that name the precision they expect and a probability width
+  let withBP (p b : String) (k : Nat → Option (St × String × Bool)) : Option (St × String × Bool) :=
+    match parseHex p, parseHex b with
+    | some p, some b =>
+      if p ≠ st.P then some (st, "skip", false)
+      else if !compiledBP W S b p then some (st, "unsupported", false)
+      else k b
+    | some p, none => if p ≠ st.P then some (st, "skip", false) else none
+    | _, _ => none
   match seg with
-  | ["dec", p, b, cdf] => skip p fun st => do
-      let c := cfgOf W S st.P (← parseHex b)
+  | ["dec", p, b, cdf] => withBP p b fun b => do
       let t ← parseList cdf
-      match decode c (tableModel t) x with
-      | .ok (s, y) => some ({ st with x := y, ghost := .sym st.P c.B t s :: st.ghost }, toHex s, false)
-      | .error .outOfData => some (st, "out_of_data", false)
-      | .error (.fault f) => some (st, faultStr f, true)
-  | ["enc", p, b, cum, pr] => skip p fun st => do
-      let c := cfgOf W S st.P (← parseHex b)
-      some (upd (encOut (encodeCP c x (← parseHex cum) (← parseHex pr)) x))
-  | ["encnone", p, _] => skip p fun st => some (st, "impossible", false)
-  | ["encsym", p, b, cdf, s] => skip p fun st => do
-      let c := cfgOf W S st.P (← parseHex b)
+      if !cdfOk b t then none else
+      -- a one-step schedule
+      let (log, _, y, e) := runDecE (cfgOf W S st.P st.P) [Step.dec b (tableModel t)] x
+      match e, log with
+      | none, [.dec _ _ s] => some ({ st with x := y, ghost := .sym st.P b t s :: st.ghost }, toHex s, false)
+      | some (.inl .outOfData), _ => some (st, "out_of_data", false)
+      | some (.inl (.fault f)), _ => some (st, faultStr f, true)
+      | _, _ => none
+  | ["enc", p, b, cum, pr] => withBP p b fun b => do
+      let c := cfgOf W S st.P b
+      let cum ← parseHex cum
+      let pr ← parseHex pr
+      if !(decide (cum < 2^b) && decide (pr < 2^b)) then none else
+      some (upd (encOut (encodeCP c x cum pr) x))
+  | ["encnone", p, b] => withBP p b fun _ => some (st, "impossible", false)
+  | ["encsym", p, b, cdf, s] => withBP p b fun b => do
+      let c := cfgOf W S st.P b
       let t ← parseList cdf
-      some (upd (encOut (encode c (tableModel t) (← parseHex s) x) x))
-  | ["encs", p, b, form, cdf, syms, errAt] => skip p fun st => do
-      let c := cfgOf W S st.P (← parseHex b)
+      let s ← parseHex s
+      if !(cdfOk b t && decide (s < 2^64)) then none else
+      some (upd (encOut (encode c (tableModel t) s x) x))
+  | ["encs", p, b, form, cdf, syms, errAt] => withBP p b fun b => do
+      let c := cfgOf W S st.P b
       let t ← parseList cdf
       let syms ← parseList syms
       let form ← parseHex form
       let errAt ← parseOptIdx errAt
       if form > 5 then none else
+      if !(cdfOk b t && syms.all (fun s => decide (s < 2^64))) then none else
       let isTry := form == 2 || form == 3
       let items : List (Option Nat) := (syms.zipIdx).map (fun (s, i) =>
         if isTry && errAt == some i then none else some s)
-      let items := if form == 1 || form == 3 || form == 5 then items.reverse else items
-      some (upd (encLoop c t x items))
-  | ["decs", p, b, form, cdf, n, errAt] => skip p fun st => do
-      let c := cfgOf W S st.P (← parseHex b)
+      let rev := form == 1 || form == 3 || form == 5
+      let items := if rev then items.reverse else items
+      -- what the iterator yields before its first `Err` item
+      let good : List (Nat × Model Nat) :=
+        (items.takeWhile Option.isSome).filterMap (fun o => o.map (fun s => (s, tableModel t)))
+      let (y, e) :=
+        if rev && !isTry then encodeSymbolsReverse c good.reverse x else encodeSymbols c good x
+      match e with
+      | some err => some ({ st with x := y }, (encErrStr err).1, (encErrStr err).2)
+      | none =>
+        some ({ st with x := y }, if good.length < items.length then "modelerr" else "ok", false)
+  | ["decs", p, b, form, cdf, n, errAt] => withBP p b fun b => do
+      let c := cfgOf W S st.P b
       let t ← parseList cdf
       let n ← parseHex n
       let form ← parseHex form
       let errAt ← parseOptIdx errAt
       if form > 2 then none else
-      let items : List Bool := (List.range n).map (fun i => form == 1 && errAt == some i)
-      let (y, acc, out, dead) := decLoop c t x items []
-      some ({ st with x := y, ghost := acc.map (Ghost.sym st.P c.B t) ++ st.ghost }, out, dead)
+      if !(cdfOk b t && decide (n < 2^16)) then none else
+      let k := match errAt with
+        | some i => if form == 1 && i < n then i else n
+        | none => n
+      let (syms, y, e) := decodeSymbols c (List.replicate k (tableModel t)) x
+      let st' := { st with x := y, ghost := syms.reverse.map (Ghost.sym st.P b t) ++ st.ghost }
+      match e with
+      | some (.fault f) => some (st', faultStr f, true)
+      | some .outOfData => some (st', showList syms ++ " out_of_data", false)
+      | none => some (st', showList syms ++ (if k < n then " modelerr" else ""), false)
   | [op, q] =>
       if op == "cp" || op == "incp" || op == "decp" then do
         let q ← parseHex q
         let c := cfgOf W S st.P st.P
         let legal := precOk W S q &&
           (if op == "incp" then decide (q ≥ st.P) else if op == "decp" then decide (q ≤ st.P) else true)
-        if !legal then some (st, "unsupported", false) else
-        let r : Except EncErr Coder :=
-          if op == "cp" then changePrecision c q x
-          else if op == "incp" then .ok (increasePrecision c q x)
-          else decreasePrecision c q x
-        match r with
-        | .ok y => some ({ st with x := y, P := q, ghost := .prec st.P :: st.ghost }, "ok", false)
-        | .error e => some (st, (encErrStr e).1, (encErrStr e).2)
+        if !legal || !compiledP W S q then some (st, "unsupported", false) else
+        if op == "cp" then
+          -- a one-step schedule
+          let (_, c', y, e) := runDecE c [(Step.prec q : Step Nat)] x
+          match e with
+          | none => some ({ st with x := y, P := c'.P, ghost := .prec st.P :: st.ghost }, "ok", false)
+          | some (.inr err) => some (st, (encErrStr err).1, (encErrStr err).2)
+          | some (.inl _) => none
+        else
+          let r : Except EncErr Coder :=
+            if op == "incp" then .ok (increasePrecision c q x) else decreasePrecision c q x
+          match r with
+          | .ok y => some ({ st with x := y, P := q, ghost := .prec st.P :: st.ghost }, "ok", false)
+          | .error e => some (st, (encErrStr e).1, (encErrStr e).2)
       else if op == "reimport" then do
         let k ← parseHex q
         let c := cfgOf W S st.P st.P
+        if k != 1 && k != 2 then none else
         match intoRemainders c x with
         | .error f => some (st, faultStr f, true)
         | .ok (pre, suf) =>
@@ -208,12 +278,11 @@ def doOp (W S : Nat) (st : St) (seg : List String) : Option (St × String × Boo
             match fromRemainders c suf with
             | some y => some ({ st with x := y, stash := pre }, "ok", false)
             | none => some (st, "err", false)
-          else if k == 2 then
+          else
             -- concatenation in `Vec` order: `prefix` below `suffix`
             match fromRemainders c (suf ++ pre) with
             | some y => some ({ st with x := y, stash := [] }, "ok", false)
             | none => some (st, "err", false)
-          else none
       else if op == "final" then
         let c := cfgOf W S st.P st.P
         let r := if q == "comp" then some (intoCompressed c x) else if q == "bin" then some (intoBinary c x) else none
@@ -231,8 +300,8 @@ def doOp (W S : Nat) (st : St) (seg : List String) : Option (St × String × Boo
           let (y, ok) := seek x pos
           some ({ st with x := y }, if ok then "ok" else "err", false)
       else none
-  | ["undo"] => some (undoOne W S st)
-  | ["undoall"] => some (undoAll W S st.ghost.length st 0)
+  | ["undo"] => some (doUndo W S st false)
+  | ["undoall"] => some (doUndo W S st true)
   | ["whole"] => some (st, showBool (isWhole x), false)
   | ["raw"] => some (st, showRaw x ++ " " ++ toHex st.P, false)
   | ["intorem"] =>
@@ -381,7 +450,7 @@ def handle (segs : List (List String)) : String :=
   | ["chain", w, s, p] :: init :: ops =>
     match parseHex w, parseHex s, parseHex p with
     | some W, some S, some P =>
-      if !precOk W S P then "unsupported" else
+      if !(precOk W S P && compiledP W S P) then "unsupported" else
       match doInit W S P init with
       | some (some x) => " | ".intercalate (runOps W S { x := x, P := P } ops ["ok"])
       | some none => "err"
@@ -390,7 +459,15 @@ def handle (segs : List (List String)) : String :=
   | [["chainsweep", w, s, p, b, kind, lo, hi]] =>
     match parseHex w, parseHex s, parseHex p, parseHex b, parseHex lo, parseHex hi with
     | some W, some S, some P, some B, some lo, some hi =>
-      if !precOk W S P then "unsupported" else
+      if !(W == 8 && S == 16) then "unsupported" else
+      if !compiledP W S P then "bad-op" else
+      -- the swept variable is a compressed head (`u8`, non-zero) or a remainders head (`u16`)
+      let overHc := kind == "decbits" || kind == "decbits0" || kind == "encbits"
+      let overW := kind == "import"
+      let top := if overHc || overW then 0xff else 0xffff
+      if hi > top || (overHc && lo == 0) then "bad-op" else
+      if kind == "cp" && !compiledP W S B then "bad-op" else
+      if kind != "cp" && !compiledBP W S B P then "bad-op" else
       match sweep W S P B kind lo hi with
       | some a => toString a.n ++ " " ++ toHex a.h.toNat
       | none => "bad-op"
